@@ -98,7 +98,7 @@ func raceReplay(job raceJob) {
 	defer report()
 	sc := job.Sc
 	g := newFreeGates()
-	be := &h.Backend{LMTPSess: sc.LMTP}
+	be := &h.Backend{LMTPSess: sc.LMTP, ByContent: sc.ByContent}
 	gateSet := map[string]bool{}
 	for _, k := range sc.Gates {
 		gateSet[k] = true
@@ -118,7 +118,7 @@ func raceReplay(job raceJob) {
 		}
 	}
 	log := &h.LogBuf{}
-	srv := h.Config{LMTP: sc.LMTP}.NewServer(be, log)
+	srv := h.Config{LMTP: sc.LMTP, MaxMessageBytes: sc.MaxBytes}.NewServer(be, log)
 	ln := &fakeListener{ch: make(chan interface{}, 16), closed: make(chan struct{})}
 	ctx, cancel := context.WithCancel(context.Background())
 	defer cancel()
